@@ -142,16 +142,15 @@ if c.currentDur < c.maxDelay {
 ```
 `backoffFactor` is a power of two (invariant `factor_pow2`), so `float64(backoffFactor)` and the
 product are exact as long as they stay below 2^63; outside that range (`int` wraps, the
-float→int conversion is implementation defined) the model only raises `ovf`. -/
-def backoff (cfg : Config) (s : State) : State :=
-  if s.cur < cfg.max then
-    let f := s.factor * 2
+float→int conversion is implementation defined) the model only raises `ovf` (third component).
+Result: (`currentDur`, `backoffFactor`, left the int64 range). -/
+def backoffVals (cfg : Config) (cur factor : Nat) : Nat × Nat × Bool :=
+  if cur < cfg.max then
+    let f := factor * 2
     let p := f64OfNat cfg.initial * f
-    if f < int64Lim ∧ p < int64Lim then
-      { s with factor := f, cur := if cfg.max < p then cfg.max else p }
-    else
-      { s with factor := f, cur := cfg.max, ovf := true }
-  else s
+    if f < int64Lim ∧ p < int64Lim then (if cfg.max < p then cfg.max else p, f, false)
+    else (cfg.max, f, true)
+  else (cur, factor, false)
 
 /-- `handleInputCh` (the token has been taken, the loop returns to its head afterwards). -/
 def handleInput (cfg : Config) (s : State) : State :=
@@ -162,8 +161,9 @@ def handleInput (cfg : Config) (s : State) : State :=
   | some _ =>
     if capReached cfg s then fire s1
     else
-      let s2 := backoff cfg s1
-      { s2 with timer := some (s.now + s2.cur), armedAt := s.now, wk := s.wk + 1 }
+      let b := backoffVals cfg s.cur s.factor
+      { s1 with cur := b.1, factor := b.2.1, ovf := s.ovf || b.2.2,
+                timer := some (s.now + b.1), armedAt := s.now, wk := s.wk + 1 }
 
 /-- `handleTimerFired` = `fireEvent` + `reset`. -/
 def handleTimer (cfg : Config) (s : State) : State :=
@@ -171,10 +171,10 @@ def handleTimer (cfg : Config) (s : State) : State :=
   { s1 with pending := 0, cur := cfg.initial, factor := 1, timer := none, loop := .top, wk := 0 }
 
 /-- The run loop is inside its `for`. -/
-def State.running (s : State) : Bool := s.loop == .top || s.loop == .sel
+def State.running (s : State) : Bool := decide (s.loop = .top ∨ s.loop = .sel)
 
 /-- The context the sender goroutines watch (child of the caller's, cancelled when `Run` returns). -/
-def State.ctxDone (s : State) : Bool := s.cancelled || s.loop == .done
+def State.ctxDone (s : State) : Bool := s.cancelled || decide (s.loop = .done)
 
 /-- `wg` counter: run loop + token goroutines + sender goroutines. -/
 def State.helpers (s : State) : Nat := s.tokens + s.senders + (if s.running then 1 else 0)
